@@ -348,9 +348,6 @@ class Program:
                               ",".join("[%d,%d,%d]" % i for i in self.instrs))
 
 
-def sol_protocol(sol):
-    return "[%d,[%s],[%s]]" % (sol["nObj"], ",".join(map(str, sol["pts"])), ",".join(map(str, sol["cont"])))
-
 
 # ------------------------------------------------------------------------------------------------ abstract interpreter
 
@@ -1440,11 +1437,176 @@ def lean_chunks(ident, what, typ, items, per_line):
     return defs, " ++ ".join(names)
 
 
-def lean_program(ident, prog, sol):
-    d1, e1 = lean_chunks(ident, "irI", "Instr", [lean_instr(i) for i in prog.instrs], 12)
-    d2, e2 = lean_chunks(ident, "solP", "Nat", ["0x%x" % m for m in sol["pts"]], 8)
-    d3, e3 = lean_chunks(ident, "solC", "Nat", ["0x%x" % m for m in sol["cont"]], 8)
-    out = d1 + d2 + d3
-    out.append("def ir_%s : Prog := ⟨[%s], %s⟩" % (ident, ", ".join(map(str, prog.params)), e1))
-    out.append("def sol_%s : SolB := ⟨%d, %s, %s⟩" % (ident, sol["nObj"], e2, e3))
-    return "\n".join(out)
+
+# ------------------------------------------------------------------------------------------------ generation of Generated/ApiIR*.lean
+
+LIT_BITS = 16000                   # size of one hexadecimal literal (the elaborator is quadratic in the literal length)
+SHARDS = ["bottleneck", "gromov_hausdorff", "heat", "images", "images_kernels", "images_weights",
+          "landscapes.approximate", "landscapes.auxiliary", "landscapes.base", "landscapes.exact", "landscapes.tools",
+          "landscapes.transformer", "landscapes.visuals", "persistent_entropy", "sliced_wasserstein", "visuals", "wasserstein"]
+
+
+def shard_ident(mod):
+    return "".join(p.capitalize() for p in mod.replace(".", "_").split("_"))
+
+
+def shard_files():
+    return ["PersimVerif/Generated/ApiIR/%s.lean" % shard_ident(m) for m in SHARDS + ["extra"]]
+
+
+def pack(masks, w):
+    P = 0
+    for i, m in enumerate(masks):
+        P |= m << (i * w)
+    return P
+
+
+def lean_bignat(name, value):
+    defs, parts, k = [], [], 0
+    while value or not parts:
+        defs.append("def %s_%d : Nat := 0x%x" % (name, k, value & ((1 << LIT_BITS) - 1)))
+        parts.append("%s_%d" % (name, k) if k == 0 else "(%s_%d <<< %d)" % (name, k, k * LIT_BITS))
+        value >>= LIT_BITS
+        k += 1
+    defs.append("def %s : Nat := %s" % (name, " ||| ".join(parts)))
+    return defs
+
+
+def sol_protocol(sol):
+    w = sol["nObj"]
+    return "[%d,%d,%d]" % (w, pack(sol["pts"], w), pack(sol["cont"], w))
+
+
+def load_policy():
+    with open(os.path.join(HERE, "policy.json")) as f:
+        pol = json.load(f)
+    with open(os.path.join(HERE, "dynamic_only.json")) as f:
+        pol["dynamic_only"] = json.load(f)
+    return pol
+
+
+class Result:
+    """translation of one entry point"""
+
+    def __init__(self, ep, prog, sol, policy):
+        self.ep, self.prog, self.sol = ep, prog, sol
+        self.name, self.ident = ep.name, ep.ident
+        self.unsafe = prog.unsafe_instrs(sol)
+        self.safe = not self.unsafe
+        ids = getattr(prog, "global_ids", {"<pyplot>": T.PYPLOT_GLOBAL})
+        self.global_ids = ids
+        self.reads = sorted({a for op, a, b in prog.instrs if op == RGLOB})
+        self.writes = sorted({a for op, a, b in prog.instrs if op == WGLOB})
+        self.uses_rng = any(op == RNG for op, a, b in prog.instrs)
+        self.allow_rng = ep.name in policy.get("rng_allowed", [])
+        self.allow_pyplot = ep.name in policy.get("pyplot_allowed", [])
+        allowed = [T.PYPLOT_GLOBAL] if self.allow_pyplot else []
+        self.allowed_globals = allowed
+        self.globals_ok = set(self.reads) <= set(allowed) and set(self.writes) <= set(allowed) and (self.allow_rng or not self.uses_rng)
+        self.kind = "dynamic_only" if ep.name in policy.get("dynamic_only", {}) else \
+            "inplace_by_contract" if ep.name in policy.get("inplace_by_contract", {}) else "obligation"
+        names = {v: k for k, v in ids.items()}
+        self.classification = ("pyplot " if T.PYPLOT_GLOBAL in self.reads + self.writes else "") + ("rng " if self.uses_rng else "") + \
+            " ".join("global:" + names.get(g, str(g)) for g in sorted(set(self.reads + self.writes)) if g != T.PYPLOT_GLOBAL)
+        self.classification = self.classification.strip() or "pure"
+
+    def lean(self):
+        i, prog, sol = self.ident, self.prog, self.sol
+        out = ["/-- `%s` (%s:%d): %d instructions, %d variables, %d allocation sites; global state: %s -/"
+               % (self.name, self.ep.module.path, self.ep.line, len(prog.instrs), len(sol["pts"]), sol["nObj"] - 1, self.classification)]
+        d1, _ = lean_chunks(i, "irI", "Instr", [lean_instr(x) for x in prog.instrs], 12)
+        nchunks = len(d1)
+        out += d1
+        chunk_names = ["irI_%s_%d" % (i, k) for k in range(nchunks)]
+        out.append("def ir_%s : Prog := ⟨[%s], List.flatten [%s]⟩" % (i, ", ".join(map(str, prog.params)), ", ".join(chunk_names)))
+        w = sol["nObj"]
+        out += lean_bignat("solP_%s" % i, pack(sol["pts"], w))
+        out += lean_bignat("solC_%s" % i, pack(sol["cont"], w))
+        out.append("def sol_%s : SolB := ⟨%d, solP_%s, solC_%s⟩" % (i, w, i, i))
+        if self.kind == "obligation":
+            for k in range(nchunks):
+                out.append("private theorem chunk_%s_%d : chunkOk sol_%s irI_%s_%d = true := by decide +kernel" % (i, k, i, i, k))
+            out.append("theorem safe_%s : safe ir_%s sol_%s = true :=\n  safe_of_chunks ir_%s sol_%s [%s] rfl (by decide +kernel)\n    ⟨%s⟩"
+                       % (i, i, i, i, i, ", ".join(chunk_names), ", ".join(["chunk_%s_%d" % (i, k) for k in range(nchunks)] + ["trivial"])))
+            out.append("theorem glob_%s : globalsWithin ir_%s [%s] [%s] %s = true := by decide +kernel"
+                       % (i, i, ", ".join(map(str, self.allowed_globals)), ", ".join(map(str, self.allowed_globals)),
+                          "true" if self.allow_rng else "false"))
+        elif self.kind == "inplace_by_contract":
+            out.append("/-- in place by documented contract (policy.json): the analysis must flag it -/")
+            out.append("theorem unsafe_%s : safe ir_%s sol_%s = false := by decide +kernel" % (i, i, i))
+        else:
+            out.append("-- dynamic only (harness/translator/dynamic_only.json): no generated obligation; covered by the [T] sweep")
+        return "\n".join(out)
+
+
+def translate_all(root, policy=None):
+    policy = policy or load_policy()
+    project = Project(root)
+    tr = Translator(project, policy)
+    results = []
+    for ep in project.entry_points():
+        prog = tr.translate(ep)
+        results.append(Result(ep, prog, prog.solve(), policy))
+    return project, tr, results
+
+
+HEADER = """/-
+  GENERATED by harness/translator/py2ir.py from the source of `persim` — do not edit.
+  Regenerated on every `./check.py C19` from PERSIM_ROOT (default /repo); identical on an unchanged tree.
+  One IR program, one solver solution and the obligations `safe_<entry>` / `glob_<entry>` per public entry point.
+-/
+import PersimVerif.Props.C19
+set_option maxRecDepth 100000
+"""
+
+
+def generate(root, lean_dir, policy=None):
+    """regenerate lean/PersimVerif/Generated/ApiIR.lean and its shards; returns (project, translator, results)"""
+    project, tr, results = translate_all(root, policy)
+    gdir = os.path.join(lean_dir, "PersimVerif", "Generated")
+    os.makedirs(os.path.join(gdir, "ApiIR"), exist_ok=True)
+    by_shard = {m: [] for m in SHARDS + ["extra"]}
+    for r in results:
+        by_shard[r.ep.module.name if r.ep.module.name in by_shard else "extra"].append(r)
+    for m, rs in by_shard.items():
+        sid = shard_ident(m)
+        body = [HEADER, "namespace PersimVerif.Generated.%s" % sid, "open PersimVerif.IR PersimVerif.C19", ""]
+        for r in rs:
+            body.append(r.lean())
+            body.append("")
+        body.append("end PersimVerif.Generated.%s" % sid)
+        write_if_changed(os.path.join(gdir, "ApiIR", sid + ".lean"), "\n".join(body) + "\n")
+    top = [HEADER.replace("import PersimVerif.Props.C19\n", "".join("import PersimVerif.Generated.ApiIR.%s\n" % shard_ident(m)
+                                                                      for m in SHARDS + ["extra"]))]
+    top.append("namespace PersimVerif.Generated\n")
+    top.append("/-- entry points with a generated obligation (%d), in place by contract (%d), dynamic only (%d) -/"
+               % (sum(r.kind == "obligation" for r in results), sum(r.kind == "inplace_by_contract" for r in results),
+                  sum(r.kind == "dynamic_only" for r in results)))
+    top.append("def entryPoints : List (String × String) := [")
+    top.append(",\n".join('  ("%s", "%s")' % (r.name, r.kind) for r in results))
+    top.append("]\n\nend PersimVerif.Generated")
+    write_if_changed(os.path.join(gdir, "ApiIR.lean"), "\n".join(top) + "\n")
+    return project, tr, results
+
+
+def write_if_changed(path, text):
+    try:
+        with open(path) as f:
+            if f.read() == text:
+                return False
+    except OSError:
+        pass
+    with open(path, "w") as f:
+        f.write(text)
+    return True
+
+
+if __name__ == "__main__":
+    import warnings
+    warnings.filterwarnings("ignore", category=SyntaxWarning)
+    root = sys.argv[1] if len(sys.argv) > 1 else os.environ.get("PERSIM_ROOT", "/repo")
+    lean_dir = sys.argv[2] if len(sys.argv) > 2 else os.path.join(os.path.dirname(os.path.dirname(HERE)), "lean")
+    _, tr, results = generate(root, lean_dir)
+    for r in results:
+        print("%-72s %-20s instrs=%4d %s %s" % (r.name, r.kind, len(r.prog.instrs), "safe" if r.safe else "UNSAFE", r.classification))
+    print("unknown calls:", sorted(tr.unknown_calls))
